@@ -415,6 +415,35 @@ def _field_invariant_nonempty(prog, fn, recv):
                  "and is modified nowhere else" % (fname, cls)
 
 
+ELEMENT_ALGORITHMS = {"std::any_of", "std::all_of", "std::none_of", "std::find_if", "std::find_if_not", "std::count_if",
+                      "std::for_each", "std::transform", "std::copy_if", "std::remove_if", "std::partition", "std::adjacent_find"}
+
+
+def _visited_by_algorithm(prog, fn, recv):
+    """fn is a lambda handed to a std algorithm that iterates over [X.begin(), X.end()) where X is the container
+    `recv` designates: the callback only runs for an element, so X is not empty."""
+    rv = strip_all(recv)
+    if rv is None or rv.get("k") != "DeclRefExpr" or not fn.parent_key:
+        return False
+    for p_ in prog.by_key.get(fn.parent_key, []):
+        for n in p_.walk():
+            if n.get("k") != "CallExpr" or notpl(n.get("q") or "") not in ELEMENT_ALGORITHMS:
+                continue
+            a = call_args(n)
+            if len(a) < 3 or not any(x.get("k") == "LambdaExpr" and x.get("fn") == fn.key for y in a[2:] for x in walk(y)):
+                continue
+
+            def over(e, names):
+                e = strip_all(e)
+                if e is None or e.get("k") != "CXXMemberCallExpr" or (strip(e["c"][0]) or {}).get("n") not in names:
+                    return False
+                o = strip_all((strip(e["c"][0]) or {}).get("c", [None])[0])
+                return o is not None and o.get("k") == "DeclRefExpr" and o.get("d") == rv.get("d")
+            if over(a[0], ("begin", "cbegin")) and over(a[1], ("end", "cend")):
+                return True
+    return False
+
+
 def rule_nonempty_access(prog, fixture=False):
     r = RuleResult("R-C07-10", "back()/front()/pop_back()/pop_front() on a standard sequence is reached only when "
                    "the container is known to be non-empty (empty()/size() test on every path, an append just "
@@ -437,6 +466,8 @@ def rule_nonempty_access(prog, fixture=False):
                 continue  # unreachable
             if not why and _grown_before(fn, g, n, recv):
                 why = "an element is appended just before"
+            if not why and _visited_by_algorithm(prog, fn, recv):
+                why = "inside the callback of an algorithm that runs over this very container (not called when it is empty)"
             if not why:
                 inv, reason = _field_invariant_nonempty(prog, fn, recv)
                 if inv:
